@@ -10,7 +10,8 @@ EXPLANATION = ("R19.1 error discipline over every call in the crate that returns
                "open; R19.4 initialisation changes `inner` only after every fallible step succeeded (a failed start is retried with the original "
                "configuration at the next write); R19.5 in FlexiLogger::log every writer result ends in a reporting closure; R19.6 no unwrap/expect "
                "on the result of a file-system or thread operation outside the triaged table. R19.3 also: with Naming::Numbers the stored index is the result of index_for_rcurrent on every path once the rename succeeded."
-               " R19.7 error channel: try_writing_to_error_channel writes the report to stderr / stdout / the configured file (create+append) / nowhere per ErrorChannel kind; eprint_err / eprint_msg pass message and cause on exactly once; the channel installed at start is the builder's field. R19.8 (shared with R07.2): in the compression chain a failing step keeps the original and is propagated; the encoder's sink cannot swallow a failing write.")
+               " R19.7 error channel: try_writing_to_error_channel writes the report to stderr / stdout / the configured file (create+append) / nowhere per ErrorChannel kind; eprint_err / eprint_msg pass message and cause on exactly once; the channel installed at start is the builder's field. R19.8 (shared with R07.2): in the compression chain a failing step keeps the original and is propagated; the encoder's sink cannot swallow a failing write."
+               " R19.9 the error of every crate function that reaches rename / remove / create / write-open / symlink is propagated, reported or inspected, never replaced by a fallback value (unwrap_or*, map_or*, ok().unwrap_or*).")
 ASSUMPTIONS = ["util::eprint_err / eprint_msg deliver to the configured error channel (its own failures are handled by handle_error_error)",
                "failures of custom writers are user code"]
 NOT_DECIDED = ["which records are lost under which fault sequence", "recovery after faults that leave the directory in a state no rule describes"]
@@ -47,8 +48,74 @@ def is_discard(c):
     return 'discard' in c and not ({'handle', 'propagate', 'report'} & c)
 
 
+def no_fallback_for_effectful_steps(R, ctx, ed, rule='R19.9'):
+    """a fallback VALUE may replace the error of a query (metadata, parse), never the error of a step that changes the file system: the result of every
+    crate function that reaches rename / remove / create / write-open / symlink is propagated, reported or inspected - not turned into a default by
+    unwrap_or / unwrap_or_else / unwrap_or_default / map_or / ok() (directly or behind non-reporting Result adaptors).  `rename failed` silently becoming
+    `use the current time` lets the caller go on to truncate the file that should have been moved away."""
+    from callgraph import effect_class
+    from errors import DEFAULT, TERMINAL_CLOSURE, ADAPT_RESULT, TO_OPTION, REPORTERS, RESULT_TY
+    f, cg = ctx.f, ctx.cg
+    MUT = {'FS_RENAME', 'FS_REMOVE', 'FS_OPEN', 'FS_CREATE', 'FS_SYMLINK', 'FS_WRITE_WHOLE'}
+    pred = lambda n, t: effect_class(n) in MUT
+    memo = {}
+
+    def effectful(p):
+        if p not in memo:
+            memo[p] = bool(cg.reaches_effect(p, pred, spawn=False))
+        return memo[p]
+
+    def swallowed(body, local, depth=0):
+        if depth > 6:
+            return None
+        u = ed.uses(body)
+        for (bb, s_, how) in u.stmt_uses.get(local, []):
+            if how in ('use', 'cast') and not s_['place']['p'] and s_['place']['l'] not in (0, local):
+                w = swallowed(body, s_['place']['l'], depth + 1)
+                if w:
+                    return w
+        for (bb, t, i) in u.call_uses.get(local, []):
+            if i != 0:
+                continue
+            n = callee_name(t)
+            reports = False
+            for a in t['args'][1:]:
+                cp = ed._closure_of_arg(body, a)
+                if cp and (REPORTERS.search(cp) or (cp in f.bodies and ed.closure_reports(cp))):
+                    reports = True
+            if DEFAULT.search(n) or (TERMINAL_CLOSURE.search(n) and re.search(r'(unwrap_or_else|map_or_else|map_or)$', n) and not reports):
+                return (n.split('::')[-1], body.loc(bb))
+            if TO_OPTION.search(n) and n.endswith('::ok') and not t['dest']['p']:
+                # .ok() followed by a default
+                for (bb2, t2, i2) in u.call_uses.get(t['dest']['l'], []):
+                    if i2 == 0 and re.search(r'Option::<T>::(unwrap_or|unwrap_or_else|unwrap_or_default|map_or)$', callee_name(t2)):
+                        return ('ok().' + callee_name(t2).split('::')[-1], body.loc(bb2))
+            if ADAPT_RESULT.search(n) and not reports and not t['dest']['p']:
+                w = swallowed(body, t['dest']['l'], depth + 1)
+                if w:
+                    return w
+        return None
+    n = 0
+    for b in f.fn_bodies():
+        if b.doc_hidden or 'validate_logs' in b.path or b.promoted is not None:
+            continue
+        for bb, t in b.calls():
+            c = callee_name(t)
+            if c not in f.bodies or not RESULT_TY.search(t.get('dest_ty') or '') or t['dest']['p'] or not effectful(c):
+                continue
+            n += 1
+            w = swallowed(b, t['dest']['l'])
+            R.check(rule, f"{root_fn(b.path)}|{c.split('::')[-1]}|no-fallback", not w, "error of an effectful step is propagated / reported / inspected",
+                    f"{b.path}: the error of {c.split('::')[-1]} (which renames / removes / creates files) is replaced by a fallback value with {w[0] if w else ''}: the caller goes on as if the "
+                    "step had happened - e.g. truncating a current file that was not rotated away - and nothing reaches the error channel", where=w[1] if w else b.loc(bb))
+    if n < 8:
+        raise CheckError(f"{rule}: only {n} calls of effectful crate functions found")
+
+
 def run(R, ctx):
     f, cg = ctx.f, ctx.cg
+    R.rule('R19.9', 'no fallback value for the error of a step that changes the file system')
+    no_fallback_for_effectful_steps(R, ctx, ErrorDiscipline(f, cg))
     R.rule('R19.1', 'ERROR-DISCIPLINE(whole crate, allow-list)')
     R.rule('R19.2', 'TABLE(record sink): rotation failure reported, write continues')
     R.rule('R19.3', 'old writer kept until the new file is open')
